@@ -295,8 +295,17 @@ func (e *Exec) atomOfView(v view) *smt.Term {
 	t := e.fresh("vatom", smt.StrS)
 	e.addAxiom(smt.Eq(strlenOf(t), v.Len))
 	av := view{FnAtom{t}, c0, v.Len}
-	// register as an assumed equality for instantiation
-	e.path.eqs = append(e.path.eqs, eqRecord{eq: smt.True, a: av, b: v})
+	if m, ok := e.smallMax(v.Len, v.Len); ok {
+		// bounded: the atom's bytes are pinned exactly
+		var cs []*smt.Term
+		for i := 0; i < m; i++ {
+			cs = append(cs, smt.Implies(smt.ULt(c64(i), v.Len), smt.Eq(av.at(c64(i)), v.at(c64(i)))))
+		}
+		e.addAxiom(smt.And(cs...))
+	} else {
+		// register as an assumed equality for targeted instantiation
+		e.path.eqs = append(e.path.eqs, eqRecord{eq: smt.True, a: av, b: v})
+	}
 	e.path.extra[key] = t
 	e.viewAtoms = append(e.viewAtoms, viewAtom{t, v})
 	return t
